@@ -286,6 +286,41 @@ def run_c20(pid, tier, seed, args, ctx):
         violation(p)
     report["matrix"] = dict(cells=sum(len(c) for c in groups.values()), combos=[" ".join(c) for c in combos],
                             cell_compiles=cells_total, failing_cells=sorted(seen_cells))
+    # ---- 2b. the documentation's own code: every \\code{.cpp} block of the headers (re-extracted from /repo on
+    #          every run) compiled verbatim, and every program under examples/.  A block that names a class template
+    #          without arguments relies on class template argument deduction and is compiled from C++17 on.
+    doc_jobs = []
+    import glob as _glob
+    for hp in sorted(_glob.glob(os.path.join(core.repo_include(), "BaseGraph", "**", "*.h*"), recursive=True)):
+        text = open(hp, errors="replace").read()
+        for bi, m in enumerate(_re.finditer(r"\\code\{\.cpp\}(.*?)\\endcode", text, flags=_re.S)):
+            body = "\n".join(_re.sub(r"^\s*\* ?", "", l) for l in m.group(1).split("\n")).strip()
+            ctad = bool(_re.search(r"\bLabeled(?:Un)?[Dd]irectedGraph\s+\w+\s*[({]", body))
+            name = os.path.relpath(hp, core.repo_include()).replace("/", "_") + f"-doc{bi}"
+            src = os.path.join(wd, "doc-" + name + ".cpp")
+            prelude = mg.PRELUDE.replace("using namespace BaseGraph;", "")
+            open(src, "w").write(prelude + "int main() {\n" + body + "\nreturn 0;\n}\n")
+            for (comp, std) in combos:
+                if ctad and std == "c++14":
+                    continue
+                doc_jobs.append((name, comp, std, src, body))
+    exdir = os.path.join(core.repo(), "examples") if hasattr(core, "repo") else os.path.join(os.path.dirname(core.repo_include()), "examples")
+    for ep_ in sorted(_glob.glob(os.path.join(exdir, "*.cpp"))):
+        for (comp, std) in combos:
+            doc_jobs.append(("example-" + os.path.basename(ep_), comp, std, ep_, open(ep_, errors="replace").read()))
+    with cf.ThreadPoolExecutor(max_workers=core.NCPU) as ex:
+        doc_res = list(ex.map(lambda j: (j, compile_only(j[1], j[2], j[3])), doc_jobs))
+    doc_fail = [(j, o) for (j, (rc, o)) in doc_res if rc != 0]
+    shown = set()
+    for (name, comp, std, src, body), o in doc_fail:
+        if name in shown or len(shown) >= 4:
+            continue
+        shown.add(name)
+        p = core.write_replay(pid, f"doc-{len(shown)}.cpp",
+                              f"// property C20: the documentation's own code ({name}) does not compile: {comp} -std={std} -fsyntax-only\n"
+                              + open(src, errors="replace").read() + f"\n/*\n{o[-1500:]}\n*/\n")
+        violation(p)
+    report["documentation_code"] = dict(blocks_and_examples=len({j[0] for j in doc_jobs}), compiles=len(doc_jobs), failures=len(doc_fail))
     # ---- 3. every header alone, twice, and from two translation units of one program
     hdrs = sorted(h["name"] if isinstance(h, dict) else h for h in (facts or {}).get("header_names", [])) if False else None
     import glob
